@@ -150,23 +150,33 @@ Qed.
 Definition outside (retention now : N) (v : ver) : bool :=
   (0 <? retention) && (retention <? (now - vts v)).
 
-Definition ck_superseded (versioning : bool) (retention now : N) (snaps : list N)
-           (i : nat) (newer : option vis) (v : ver) : bool :=
+Definition ck_superseded (bottom versioning : bool) (retention now : N) (snaps : list N)
+           (i : nat) (newer : option vis) (nbar : bool) (v : ver) : bool :=
   let is_latest := Nat.eqb i 0 in
   let cur := visibility snaps (vseq v) in
   match newer with
   | Some nv =>
     let outside_retention := (0 <? retention) && (retention <? (now - vts v)) in
-    (negb versioning || outside_retention) && negb is_latest && same_boundary nv cur
+    let barrier_above_bottom := versioning && negb bottom && is_hard (vkind v) && negb nbar in
+    (negb versioning || outside_retention) && negb barrier_above_bottom
+      && negb is_latest && same_boundary nv cur
   | None => false
   end.
 
+(* the newer-barrier accumulator after the reset at a change of visibility boundary *)
+Definition ck_nb (snaps : list N) (newer : option vis) (nbar : bool) (v : ver) : bool :=
+  match newer with
+  | Some nv => if negb (same_boundary nv (visibility snaps (vseq v))) then false else nbar
+  | None => nbar
+  end.
+
+(* [nbar] of ck_superseded / ck_flag is the accumulator AFTER the reset *)
 Definition ck_flag (bottom versioning : bool) (retention now : N) (snaps : list N)
-           (latest_del_bottom : bool) (i : nat) (newer : option vis) (barrier : bool) (v : ver)
+           (latest_del_bottom : bool) (i : nat) (newer : option vis) (barrier nbar : bool) (v : ver)
   : bool :=
   let is_latest := Nat.eqb i 0 in
   let cur := visibility snaps (vseq v) in
-  let superseded := ck_superseded versioning retention now snaps i newer v in
+  let superseded := ck_superseded bottom versioning retention now snaps i newer nbar v in
   let required := negb superseded && match cur with Bounded _ => true | _ => false end in
   let hard := is_hard (vkind v) in
   let rep := is_rep (vkind v) in
@@ -178,7 +188,7 @@ Definition ck_flag (bottom versioning : bool) (retention now : N) (snaps : list 
     else if is_latest && hard && bottom then false
     else if is_latest && hard && negb bottom then false
     else if is_latest && rep then false
-    else if hard then negb (versioning && negb bottom)
+    else if hard then negb (versioning && negb bottom && negb nbar)
     else if barrier then true
     else if negb versioning then true
     else if 0 <? retention then (retention <? (now - vts v)) else false in
@@ -188,18 +198,19 @@ Definition ck_flag (bottom versioning : bool) (retention now : N) (snaps : list 
   else if versioning || required then true
   else is_latest.
 
-Lemma ck_decide_cons : forall bottom versioning retention now snaps ldb i newer barrier v r,
-  ck_decide bottom versioning retention now snaps ldb i newer barrier (v :: r) =
-  (v, ck_flag bottom versioning retention now snaps ldb i newer barrier v) ::
+Lemma ck_decide_cons : forall bottom versioning retention now snaps ldb i newer barrier nbar v r,
+  ck_decide bottom versioning retention now snaps ldb i newer barrier nbar (v :: r) =
+  (v, ck_flag bottom versioning retention now snaps ldb i newer barrier (ck_nb snaps newer nbar v) v) ::
   ck_decide bottom versioning retention now snaps ldb (S i)
-            (Some (visibility snaps (vseq v))) (barrier || is_rep (vkind v)) r.
+            (Some (visibility snaps (vseq v))) (barrier || is_rep (vkind v))
+            (ck_nb snaps newer nbar v || is_hard (vkind v) || is_rep (vkind v)) r.
 Proof. reflexivity. Qed.
 
-Lemma ck_decide_map_fst : forall bottom versioning retention now snaps ldb l i newer barrier,
-  map fst (ck_decide bottom versioning retention now snaps ldb i newer barrier l) = l.
+Lemma ck_decide_map_fst : forall bottom versioning retention now snaps ldb l i newer barrier nbar,
+  map fst (ck_decide bottom versioning retention now snaps ldb i newer barrier nbar l) = l.
 Proof.
   intros bottom versioning retention now snaps ldb l.
-  induction l as [|v r IH]; intros i newer barrier.
+  induction l as [|v r IH]; intros i newer barrier nbar.
   - reflexivity.
   - rewrite ck_decide_cons. cbn [map fst]. rewrite IH. reflexivity.
 Qed.
@@ -215,7 +226,7 @@ Definition ldb_cond (bottom : bool) (snaps : list N) (vs : list ver) : bool :=
 Definition flagged (bottom versioning : bool) (retention now : N) (snaps : list N)
            (vs : list ver) : list (ver * bool) :=
   let ds := ck_decide bottom versioning retention now snaps (ldb_cond bottom snaps vs)
-                      0 None false vs in
+                      0 None false false vs in
   if versioning then fixup ds else ds.
 
 Lemma compact_key_eq : forall bottom versioning retention now snaps vs,
@@ -248,18 +259,18 @@ Qed.
 (* Generic facts on the decision                                                              *)
 
 (* under latest_del_bottom nothing is written *)
-Lemma ck_flag_ldb : forall bottom versioning retention now snaps i newer barrier v,
-  ck_flag bottom versioning retention now snaps true i newer barrier v = false.
+Lemma ck_flag_ldb : forall bottom versioning retention now snaps i newer barrier nbar v,
+  ck_flag bottom versioning retention now snaps true i newer barrier nbar v = false.
 Proof.
   intros. unfold ck_flag.
-  destruct (ck_superseded versioning retention now snaps i newer v); reflexivity.
+  destruct (ck_superseded bottom versioning retention now snaps i newer nbar v); reflexivity.
 Qed.
 
-Lemma ck_decide_ldb : forall bottom versioning retention now snaps l i newer barrier,
-  existsb snd (ck_decide bottom versioning retention now snaps true i newer barrier l) = false.
+Lemma ck_decide_ldb : forall bottom versioning retention now snaps l i newer barrier nbar,
+  existsb snd (ck_decide bottom versioning retention now snaps true i newer barrier nbar l) = false.
 Proof.
   intros bottom versioning retention now snaps l.
-  induction l as [|v r IH]; intros i newer barrier.
+  induction l as [|v r IH]; intros i newer barrier nbar.
   - reflexivity.
   - rewrite ck_decide_cons. cbn [existsb snd]. rewrite ck_flag_ldb, IH. reflexivity.
 Qed.
@@ -276,8 +287,8 @@ Proof.
 Qed.
 
 (* the newest version (index 0, nothing newer) is always written, except under latest_del_bottom *)
-Lemma ck_flag_head : forall bottom versioning retention now snaps barrier v,
-  ck_flag bottom versioning retention now snaps false 0 None barrier v = true.
+Lemma ck_flag_head : forall bottom versioning retention now snaps barrier nbar v,
+  ck_flag bottom versioning retention now snaps false 0 None barrier nbar v = true.
 Proof.
   intros. unfold ck_flag, ck_superseded. cbn [Nat.eqb negb andb].
   destruct (visibility snaps (vseq v)); cbn [andb orb negb];
@@ -286,12 +297,12 @@ Proof.
 Qed.
 
 (* a version that is not superseded and is bounded by a snapshot is written *)
-Lemma ck_flag_required : forall bottom versioning retention now snaps i newer barrier v s',
-  ck_superseded versioning retention now snaps i newer v = false ->
+Lemma ck_flag_required : forall bottom versioning retention now snaps i newer barrier nbar v s',
+  ck_superseded bottom versioning retention now snaps i newer nbar v = false ->
   visibility snaps (vseq v) = Bounded s' ->
-  ck_flag bottom versioning retention now snaps false i newer barrier v = true.
+  ck_flag bottom versioning retention now snaps false i newer barrier nbar v = true.
 Proof.
-  intros bottom versioning retention now snaps i newer barrier v s' Hsup Hvis.
+  intros bottom versioning retention now snaps i newer barrier nbar v s' Hsup Hvis.
   unfold ck_flag. rewrite Hsup, Hvis. cbn [negb andb].
   rewrite orb_true_r. reflexivity.
 Qed.
@@ -299,11 +310,11 @@ Qed.
 (* ------------------------------------------------------------------------------------------ *)
 (* 2. plain                                                                                   *)
 
-Lemma ck_decide_plain_tail : forall bottom retention now ldb l i barrier,
-  existsb snd (ck_decide bottom false retention now [] ldb (S i) (Some NoSnap) barrier l) = false.
+Lemma ck_decide_plain_tail : forall bottom retention now ldb l i barrier nbar,
+  existsb snd (ck_decide bottom false retention now [] ldb (S i) (Some NoSnap) barrier nbar l) = false.
 Proof.
   intros bottom retention now ldb l.
-  induction l as [|v r IH]; intros i barrier.
+  induction l as [|v r IH]; intros i barrier nbar.
   - reflexivity.
   - rewrite ck_decide_cons. cbn [visibility existsb snd]. rewrite IH.
     unfold ck_flag, ck_superseded. cbn [visibility Nat.eqb negb andb orb same_boundary].
@@ -431,18 +442,18 @@ Definition newer_above (snaps : list N) (s : N) (newer : option vis) : Prop :=
 
 Lemma ck_decide_first_flagged_snap : forall bottom versioning retention now snaps s,
   asc snaps -> In s snaps ->
-  forall l i newer barrier, newer_above snaps s newer ->
+  forall l i newer barrier nbar, newer_above snaps s newer ->
   first_flagged (fun v => vseq v <=? s)
-    (ck_decide bottom versioning retention now snaps false i newer barrier l).
+    (ck_decide bottom versioning retention now snaps false i newer barrier nbar l).
 Proof.
   intros bottom versioning retention now snaps s Hasc Hin.
-  induction l as [|v r IH]; intros i newer barrier Hnew.
+  induction l as [|v r IH]; intros i newer barrier nbar Hnew.
   - exact I.
   - rewrite ck_decide_cons. cbn [first_flagged fst snd].
     destruct (N.leb_spec (vseq v) s) as [Hle|Hgt].
     + destruct (visibility_le snaps (vseq v) s Hasc Hin Hle) as [s' [Hvis Hs']].
-      apply (ck_flag_required bottom versioning retention now snaps i newer barrier v s');
-        [|exact Hvis].
+      apply (ck_flag_required bottom versioning retention now snaps i newer barrier
+               (ck_nb snaps newer nbar v) v s'); [|exact Hvis].
       unfold ck_superseded. destruct Hnew as [->|[q [-> Hq]]]; [reflexivity|].
       rewrite Hvis. rewrite (visibility_gt snaps q s s' Hin Hq Hs').
       apply andb_false_r.
@@ -456,7 +467,7 @@ Lemma flagged_first_flagged : forall bottom versioning retention now snaps vs s,
 Proof.
   intros bottom versioning retention now snaps vs s Hasc Hrel Hldb.
   assert (H : first_flagged (fun v => vseq v <=? s)
-                (ck_decide bottom versioning retention now snaps false 0 None false vs)).
+                (ck_decide bottom versioning retention now snaps false 0 None false false vs)).
   { destruct Hrel as [Hin|Htop].
     - apply ck_decide_first_flagged_snap; [exact Hasc | exact Hin | left; reflexivity].
     - destruct vs as [|v r]; [exact I|].
@@ -604,18 +615,20 @@ Qed.
 
 (* with versioning, a version dropped by the decision is outside the retention window, or it is
    unbounded, not the latest, and a hard delete or below a replace *)
-Lemma ck_flag_false : forall bottom retention now snaps i newer barrier v,
-  ck_flag bottom true retention now snaps false i newer barrier v = false ->
+Lemma ck_flag_false : forall bottom retention now snaps i newer barrier nbar v,
+  ck_flag bottom true retention now snaps false i newer barrier nbar v = false ->
   outside retention now v = true \/
   ((forall s', visibility snaps (vseq v) <> Bounded s') /\
    (is_hard (vkind v) = true \/ barrier = true)).
 Proof.
-  intros bottom retention now snaps i newer barrier v H.
+  intros bottom retention now snaps i newer barrier nbar v H.
   unfold ck_flag, ck_superseded, outside in *.
   destruct ((0 <? retention) && (retention <? now - vts v)) eqn:Ho; [left; reflexivity|].
   right.
   assert (Hsup : match newer with
-                 | Some nv => (negb true || false) && negb (Nat.eqb i 0) &&
+                 | Some nv => (negb true || false) &&
+                              negb (true && negb bottom && is_hard (vkind v) && negb nbar) &&
+                              negb (Nat.eqb i 0) &&
                               same_boundary nv (visibility snaps (vseq v))
                  | None => false
                  end = false) by (destruct newer; reflexivity).
@@ -623,13 +636,13 @@ Proof.
   destruct (visibility snaps (vseq v)) eqn:Hvis; [discriminate| |].
   - split; [intros s'; discriminate|].
     destruct (Nat.eqb i 0); destruct (is_hard (vkind v)); destruct (is_rep (vkind v));
-      destruct bottom; destruct barrier; cbn [negb andb orb] in H;
+      destruct bottom; destruct barrier; destruct nbar; cbn [negb andb orb] in H;
       try discriminate; try (left; reflexivity); try (right; reflexivity).
     all: destruct (0 <? retention); cbn [andb] in Ho; try discriminate;
       rewrite Ho in H; discriminate.
   - split; [intros s'; discriminate|].
     destruct (Nat.eqb i 0); destruct (is_hard (vkind v)); destruct (is_rep (vkind v));
-      destruct bottom; destruct barrier; cbn [negb andb orb] in H;
+      destruct bottom; destruct barrier; destruct nbar; cbn [negb andb orb] in H;
       try discriminate; try (left; reflexivity); try (right; reflexivity).
     all: destruct (0 <? retention); cbn [andb] in Ho; try discriminate;
       rewrite Ho in H; discriminate.
@@ -638,32 +651,33 @@ Qed.
 (* K1: a bounded version is dropped only outside the retention window *)
 Lemma ck_decide_false_bounded : forall bottom retention now snaps v s',
   visibility snaps (vseq v) = Bounded s' ->
-  forall l i newer barrier,
-  In (v, false) (ck_decide bottom true retention now snaps false i newer barrier l) ->
+  forall l i newer barrier nbar,
+  In (v, false) (ck_decide bottom true retention now snaps false i newer barrier nbar l) ->
   outside retention now v = true.
 Proof.
   intros bottom retention now snaps v s' Hvis.
-  induction l as [|x r IH]; intros i newer barrier H.
+  induction l as [|x r IH]; intros i newer barrier nbar H.
   - destruct H.
   - rewrite ck_decide_cons in H. destruct H as [H|H].
     + injection H as -> Hf. apply ck_flag_false in Hf.
       destruct Hf as [Hf|[Hf _]]; [exact Hf|]. exfalso. exact (Hf s' Hvis).
-    + exact (IH _ _ _ H).
+    + exact (IH _ _ _ _ H).
 Qed.
 
 (* K2: read from the top, a version of the history is dropped only outside the window *)
 Lemma ck_decide_false_hist : forall bottom retention now snaps v,
-  forall l i newer,
-  In (v, false) (hist_ofF (fixup (ck_decide bottom true retention now snaps false i newer false l))) ->
+  forall l i newer nbar,
+  In (v, false) (hist_ofF (fixup (ck_decide bottom true retention now snaps false i newer false nbar l))) ->
   outside retention now v = true.
 Proof.
   intros bottom retention now snaps v.
-  induction l as [|x r IH]; intros i newer H.
+  induction l as [|x r IH]; intros i newer nbar H.
   - destruct H.
   - rewrite ck_decide_cons in H. cbn [fixup hist_ofF fst snd] in H.
     destruct (is_hard (vkind x)) eqn:Hh; [destruct H|].
     assert (Hhead : forall b',
-      (x, ck_flag bottom true retention now snaps false i newer false x || b') = (v, false) ->
+      (x, ck_flag bottom true retention now snaps false i newer false (ck_nb snaps newer nbar x) x || b')
+        = (v, false) ->
       outside retention now v = true).
     { intros b' He. injection He as -> Hf. apply orb_false_elim in Hf. destruct Hf as [Hf _].
       apply ck_flag_false in Hf. destruct Hf as [Hf|[_ [Hf|Hf]]];
@@ -671,7 +685,7 @@ Proof.
     destruct (is_rep (vkind x)) eqn:Hr.
     + destruct H as [H|[]]. exact (Hhead _ H).
     + destruct H as [H|H]; [exact (Hhead _ H)|].
-      cbn [orb] in H. exact (IH _ _ H).
+      cbn [orb] in H. exact (IH _ _ _ H).
 Qed.
 
 Lemma desc_le_top : forall vs v, desc vs -> In v vs -> vseq v <= top vs.
@@ -709,12 +723,12 @@ Proof.
     apply fixup_in_false in H.
     destruct (N.leb_spec (vseq v) s) as [Hle|]; [|discriminate].
     destruct (visibility_le snaps (vseq v) s Hasc Hin Hle) as [s' [Hvis _]].
-    exact (ck_decide_false_bounded _ _ _ _ _ _ Hvis _ _ _ _ H).
+    exact (ck_decide_false_bounded _ _ _ _ _ _ Hvis _ _ _ _ _ H).
   - rewrite filter_all in H.
-    + exact (ck_decide_false_hist _ _ _ _ _ _ _ _ H).
+    + exact (ck_decide_false_hist _ _ _ _ _ _ _ _ _ H).
     + intros d Hd.
       assert (Hv : In (fst d) vs).
-      { rewrite <- (ck_decide_map_fst bottom true retention now snaps false vs 0 None false).
+      { rewrite <- (ck_decide_map_fst bottom true retention now snaps false vs 0 None false false).
         rewrite <- fixup_map_fst. apply in_map. exact Hd. }
       pose proof (desc_le_top vs (fst d) Hdesc Hv) as Hle.
       destruct (N.leb_spec (vseq (fst d)) s); [reflexivity | lia].
@@ -905,39 +919,151 @@ Proof. intros snaps vs. destruct vs; reflexivity. Qed.
 Lemma outside_0 : forall now v, outside 0 now v = false.
 Proof. reflexivity. Qed.
 
-(* above the bottom level, with versioning, a hard delete is dropped by the decision only when it
-   is outside the retention window (the repaired branch) *)
-Lemma ck_flag_hard_above : forall retention now snaps i newer barrier v,
+(* above the bottom level, with versioning, a hard delete with no newer barrier above it is always
+   written, for ANY retention: it is neither superseded nor stale (the two repaired branches) *)
+Lemma ck_flag_hard_first : forall retention now snaps i newer barrier v,
   is_hard (vkind v) = true ->
-  ck_flag false true retention now snaps false i newer barrier v = false ->
-  outside retention now v = true.
+  ck_flag false true retention now snaps false i newer barrier false v = true.
 Proof.
-  intros retention now snaps i newer barrier v Hh H.
-  unfold ck_flag, ck_superseded, outside in *.
-  destruct ((0 <? retention) && (retention <? now - vts v)) eqn:Ho; [reflexivity|].
-  exfalso.
-  assert (Hsup : match newer with
-                 | Some nv => (negb true || false) && negb (Nat.eqb i 0) &&
-                              same_boundary nv (visibility snaps (vseq v))
-                 | None => false
-                 end = false) by (destruct newer; reflexivity).
-  rewrite Hsup, Hh in H. cbn [negb andb orb] in H.
-  destruct (visibility snaps (vseq v)); destruct (Nat.eqb i 0); destruct (is_rep (vkind v));
-    cbn [negb andb orb] in H; discriminate.
+  intros retention now snaps i newer barrier v Hh.
+  unfold ck_flag, ck_superseded. rewrite Hh.
+  destruct newer as [nv|]; destruct ((0 <? retention) && (retention <? now - vts v));
+    cbn [negb andb orb];
+    destruct (visibility snaps (vseq v)); destruct (Nat.eqb i 0); destruct (is_rep (vkind v));
+    cbn [negb andb orb]; reflexivity.
 Qed.
 
-Lemma ck_decide_false_hard : forall retention now snaps v,
-  is_hard (vkind v) = true ->
-  forall l i newer barrier,
-  In (v, false) (ck_decide false true retention now snaps false i newer barrier l) ->
-  outside retention now v = true.
+Lemma ck_nb_false : forall snaps newer v, ck_nb snaps newer false v = false.
 Proof.
-  intros retention now snaps v Hh.
-  induction l as [|x r IH]; intros i newer barrier H.
-  - destruct H.
-  - rewrite ck_decide_cons in H. destruct H as [H|H].
-    + injection H as -> Hf. exact (ck_flag_hard_above _ _ _ _ _ _ _ Hh Hf).
-    + exact (IH _ _ _ H).
+  intros snaps newer v. unfold ck_nb. destruct newer as [nv|]; [|reflexivity].
+  destruct (negb (same_boundary nv (visibility snaps (vseq v)))); reflexivity.
+Qed.
+
+(* hence: when the newest barrier of the whole list is a hard delete and it is the newest barrier
+   the reader at s sees, it is kept *)
+Lemma ck_decide_first_bar_hard : forall retention now snaps s v,
+  is_hard (vkind v) = true ->
+  forall l i newer barrier b,
+  find isbar l = Some v ->
+  first_bar (filter (fun d : ver * bool => vseq (fst d) <=? s)
+              (fixup (ck_decide false true retention now snaps false i newer barrier false l)))
+    = Some (v, b) ->
+  b = true.
+Proof.
+  intros retention now snaps s v Hh.
+  induction l as [|x r IH]; intros i newer barrier b Hf H.
+  - discriminate.
+  - rewrite ck_decide_cons, ck_nb_false in H. cbn [fixup fst snd] in H. cbn [find] in Hf.
+    destruct (isbar x) eqn:Hx.
+    + injection Hf as ->. cbn [filter fst] in H.
+      destruct (N.leb_spec (vseq v) s) as [Hle|Hgt].
+      * rewrite first_bar_cons, Hx in H. injection H as <-.
+        rewrite (ck_flag_hard_first _ _ _ _ _ _ _ Hh). reflexivity.
+      * exfalso. unfold first_bar in H. apply find_some in H. destruct H as [Hin _].
+        apply filter_In in Hin. destruct Hin as [_ Hs]. cbn [fst] in Hs.
+        destruct (N.leb_spec (vseq v) s); [lia | discriminate].
+    + assert (Hn : is_hard (vkind x) = false /\ is_rep (vkind x) = false).
+      { unfold isbar in Hx. apply orb_false_elim in Hx. exact Hx. }
+      destruct Hn as [Hx1 Hx2]. rewrite Hx1, Hx2 in H. cbn [orb] in H.
+      cbn [filter fst] in H. destruct (vseq x <=? s).
+      * rewrite first_bar_cons, Hx in H. exact (IH _ _ _ _ Hf H).
+      * exact (IH _ _ _ _ Hf H).
+Qed.
+
+Lemma flagged_first_bar_hard : forall retention now snaps vs s v b,
+  is_hard (vkind v) = true -> find isbar vs = Some v ->
+  first_bar (filter (fun d : ver * bool => vseq (fst d) <=? s)
+                    (flagged false true retention now snaps vs)) = Some (v, b) ->
+  b = true.
+Proof.
+  intros retention now snaps vs s v b Hh Hf H.
+  unfold flagged in H. rewrite ldb_cond_above in H.
+  exact (ck_decide_first_bar_hard _ _ _ _ _ Hh _ _ _ _ _ Hf H).
+Qed.
+
+(* a snapshot reader: whatever was passed above the snapshot lies in another visibility boundary,
+   so the accumulator is reset before the first barrier the reader sees *)
+Lemma ck_nb_snap : forall snaps s newer nbar x s',
+  In s snaps ->
+  (nbar = true -> exists q, newer = Some (visibility snaps q) /\ s < q) ->
+  visibility snaps (vseq x) = Bounded s' -> s' <= s ->
+  ck_nb snaps newer nbar x = false.
+Proof.
+  intros snaps s newer nbar x s' Hin J Hvis Hs'.
+  destruct nbar; [|apply ck_nb_false].
+  destruct (J eq_refl) as [q [-> Hq]].
+  unfold ck_nb. rewrite Hvis, (visibility_gt snaps q s s' Hin Hq Hs'). reflexivity.
+Qed.
+
+Lemma ck_decide_first_bar_hard_snap : forall retention now snaps s v,
+  asc snaps -> In s snaps ->
+  is_hard (vkind v) = true ->
+  forall l i newer barrier nbar b,
+  (nbar = true -> exists q, newer = Some (visibility snaps q) /\ s < q) ->
+  first_bar (filter (fun d : ver * bool => vseq (fst d) <=? s)
+              (fixup (ck_decide false true retention now snaps false i newer barrier nbar l)))
+    = Some (v, b) ->
+  b = true.
+Proof.
+  intros retention now snaps s v Hasc Hin Hh.
+  induction l as [|x r IH]; intros i newer barrier nbar b J H.
+  - discriminate.
+  - rewrite ck_decide_cons in H. cbn [fixup fst snd filter] in H.
+    destruct (N.leb_spec (vseq x) s) as [Hle|Hgt].
+    + destruct (visibility_le snaps (vseq x) s Hasc Hin Hle) as [s' [Hvis Hs']].
+      rewrite (ck_nb_snap snaps s newer nbar x s' Hin J Hvis Hs') in H.
+      rewrite first_bar_cons in H. destruct (isbar x) eqn:Hx.
+      * injection H as -> <-.
+        rewrite (ck_flag_hard_first _ _ _ _ _ _ _ Hh). reflexivity.
+      * assert (Hn : is_hard (vkind x) = false /\ is_rep (vkind x) = false).
+        { unfold isbar in Hx. apply orb_false_elim in Hx. exact Hx. }
+        destruct Hn as [Hx1 Hx2]. rewrite Hx1, Hx2 in H. cbn [orb] in H.
+        apply (IH _ _ _ _ _ (fun E : false = true => False_ind _ (Bool.diff_false_true E)) H).
+    + apply (IH _ _ _ _ _ (fun _ => ex_intro _ (vseq x) (conj eq_refl Hgt)) H).
+Qed.
+
+Lemma filter_flagged_top : forall bottom versioning retention now snaps vs s,
+  desc vs -> top vs <= s ->
+  filter (fun d : ver * bool => vseq (fst d) <=? s)
+         (flagged bottom versioning retention now snaps vs)
+  = flagged bottom versioning retention now snaps vs.
+Proof.
+  intros bottom versioning retention now snaps vs s Hdesc Htop.
+  apply filter_all. intros d Hd.
+  assert (Hv : In (fst d) vs).
+  { rewrite <- (flagged_map_fst bottom versioning retention now snaps vs).
+    apply in_map. exact Hd. }
+  pose proof (desc_le_top vs (fst d) Hdesc Hv) as Hle.
+  destruct (N.leb_spec (vseq (fst d)) s); [reflexivity | lia].
+Qed.
+
+(* for a reader at or above the newest version the newest visible barrier is the newest barrier *)
+Lemma first_bar_top : forall retention now snaps vs s d,
+  desc vs -> top vs <= s ->
+  first_bar (filter (fun d : ver * bool => vseq (fst d) <=? s)
+                    (flagged false true retention now snaps vs)) = Some d ->
+  find isbar vs = Some (fst d).
+Proof.
+  intros retention now snaps vs s d Hdesc Htop H.
+  rewrite (filter_flagged_top _ _ _ _ _ _ _ Hdesc Htop) in H.
+  apply (find_map_fst isbar) in H. rewrite flagged_map_fst in H. exact H.
+Qed.
+
+(* the newest barrier a relevant reader sees, when it is a hard delete, is kept — any retention *)
+Lemma flagged_first_bar_hard_rel : forall retention now snaps vs s v b,
+  desc vs -> asc snaps -> (In s snaps \/ top vs <= s) ->
+  is_hard (vkind v) = true ->
+  first_bar (filter (fun d : ver * bool => vseq (fst d) <=? s)
+                    (flagged false true retention now snaps vs)) = Some (v, b) ->
+  b = true.
+Proof.
+  intros retention now snaps vs s v b Hdesc Hasc Hrel Hh H.
+  destruct Hrel as [Hin|Htop].
+  - unfold flagged in H. rewrite ldb_cond_above in H.
+    apply (ck_decide_first_bar_hard_snap _ _ _ _ _ Hasc Hin Hh _ _ _ _ _ _
+             (fun E : false = true => False_ind _ (Bool.diff_false_true E)) H).
+  - pose proof (first_bar_top _ _ _ _ _ _ Hdesc Htop H) as Hf. cbn [fst] in Hf.
+    exact (flagged_first_bar_hard _ _ _ _ _ _ _ Hh Hf H).
 Qed.
 
 (* the newest barrier a relevant reader sees is kept, or it is outside the retention window *)
@@ -950,11 +1076,18 @@ Proof.
   intros retention now snaps vs s v b Hdesc Hasc Hrel H.
   destruct b; [left; reflexivity | right].
   destruct (is_hard (vkind v)) eqn:Hh.
-  - unfold first_bar in H. apply find_some in H. destruct H as [Hin _].
-    apply filter_In in Hin. destruct Hin as [Hin _].
-    unfold flagged in Hin. rewrite ldb_cond_above in Hin.
-    apply fixup_in_false in Hin.
-    exact (ck_decide_false_hard _ _ _ _ Hh _ _ _ _ Hin).
+  - destruct Hrel as [Hin|Htop].
+    + (* a snapshot reader: the barrier is bounded by a snapshot *)
+      unfold first_bar in H. apply find_some in H. destruct H as [Hd _].
+      apply filter_In in Hd. destruct Hd as [Hd Hs]. cbn [fst] in Hs.
+      unfold flagged in Hd. rewrite ldb_cond_above in Hd. apply fixup_in_false in Hd.
+      destruct (N.leb_spec (vseq v) s) as [Hle|]; [|discriminate].
+      destruct (visibility_le snaps (vseq v) s Hasc Hin Hle) as [s' [Hvis _]].
+      exact (ck_decide_false_bounded _ _ _ _ _ _ Hvis _ _ _ _ _ Hd).
+    + (* a reader above everything: its barrier is the newest one of the list *)
+      exfalso.
+      pose proof (first_bar_top _ _ _ _ _ _ Hdesc Htop H) as Hf. cbn [fst] in Hf.
+      pose proof (flagged_first_bar_hard _ _ _ _ _ _ _ Hh Hf H) as Hb. discriminate.
   - apply (flagged_hist_false false retention now snaps vs s v Hdesc Hasc Hrel
              (ldb_cond_above snaps vs)).
     apply first_bar_rep_hist; [exact H | exact Hh].
@@ -1057,9 +1190,37 @@ Proof.
     split; assumption.
 Qed.
 
+Lemma newest_barrier_flagged : forall bottom versioning retention now snaps vs s,
+  newest_barrier vs s =
+  find isbar (map fst (filter (fun d : ver * bool => vseq (fst d) <=? s)
+                              (flagged bottom versioning retention now snaps vs))).
+Proof.
+  intros. unfold newest_barrier. rewrite find_filter.
+  rewrite <- (flagged_map_fst bottom versioning retention now snaps vs) at 1.
+  rewrite (filter_map_fst (fun v => vseq v <=? s)). reflexivity.
+Qed.
+
+(* finite retention, hard-delete barrier, no window proviso *)
+Lemma compact_key_history_deeper_hard : compact_key_history_deeper_hard_stmt.
+Proof.
+  unfold compact_key_history_deeper_hard_stmt, history_deeper, lies_below.
+  intros retention now snaps vs deep s b [Hdesc0 _] Hasc Hrel Hnb Hh.
+  pose proof (desc_app_l _ _ Hdesc0) as Hdesc.
+  destruct (history_app_flagged false true retention now snaps vs deep s) as [Hout Hin].
+  cbv zeta in Hout, Hin. rewrite Hout, Hin.
+  apply hist_kept_app_incl.
+  intros [v f] H. cbn [snd].
+  assert (Hv : v = b).
+  { rewrite (newest_barrier_flagged false true retention now snaps) in Hnb.
+    rewrite (find_map_fst isbar _ _ H) in Hnb. cbn [fst] in Hnb. injection Hnb as ->. reflexivity. }
+  subst v. exact (flagged_first_bar_hard_rel _ _ _ _ _ _ _ Hdesc Hasc Hrel Hh H).
+Qed.
+
 (* witnesses *)
 Definition w_set (q : N) : ver := {| vseq := q; vkind := CSet; vts := 0 |}.
 Definition w_del (q : N) : ver := {| vseq := q; vkind := CDel; vts := 0 |}.
+Definition w_rep (q : N) : ver := {| vseq := q; vkind := CRep; vts := 0 |}.
+Definition w_soft (q : N) : ver := {| vseq := q; vkind := CSoft; vts := 0 |}.
 
 Lemma w_lies_below : lies_below [w_set 3; w_del 2] [w_set 1].
 Proof.
@@ -1068,22 +1229,51 @@ Proof.
   - cbn [app]. intros v [<-|[<-|[<-|[]]]]; cbn [vseq w_set w_del]; lia.
 Qed.
 
-(* finite retention, barrier outside the window: Set@1 of the deeper level comes back *)
-Lemma compact_key_retention_barrier_lost : compact_key_retention_barrier_lost_stmt.
+Lemma w_lies_below_rep : lies_below [w_set 3; w_rep 2] [w_set 1].
 Proof.
-  exists 10, 100, [], [w_set 3; w_del 2], [w_set 1], 3, (w_set 1).
-  split; [exact w_lies_below|]. split; [constructor|]. split; [right; cbn; lia|].
   split.
-  - vm_compute. right. left. reflexivity.
-  - vm_compute. intros [H|[]]. discriminate H.
+  - unfold desc. cbn [app]. repeat (constructor; cbn [vseq w_set w_rep]); lia.
+  - cbn [app]. intros v [<-|[<-|[<-|[]]]]; cbn [vseq w_set w_rep]; lia.
 Qed.
 
-(* the decision before the repair loses the barrier Del@2: Set@1 of the deeper level comes back *)
+(* finite retention, REPLACE barrier outside the window: Set@1 of the deeper level comes back
+   (limitation kept by the crate's pinned tests) *)
+Lemma compact_key_retention_replace_lost : compact_key_retention_replace_lost_stmt.
+Proof.
+  exists 10, 100, [], [w_set 3; w_rep 2], [w_set 1], 3, (w_rep 2), (w_set 1).
+  split; [exact w_lies_below_rep|]. split; [constructor|]. split; [cbn; lia|].
+  split; [reflexivity|]. split; [reflexivity|]. split; [reflexivity|].
+  split.
+  - vm_compute. right. left. reflexivity.
+  - vm_compute. intros [H|[H|[]]]; discriminate H.
+Qed.
+
+Lemma compact_key_retention_barrier_lost : compact_key_retention_barrier_lost_stmt.
+Proof.
+  exists 10, 100, [], [w_set 3; w_rep 2], [w_set 1], 3, (w_set 1).
+  split; [exact w_lies_below_rep|]. split; [constructor|]. split; [right; cbn; lia|].
+  split.
+  - vm_compute. right. left. reflexivity.
+  - vm_compute. intros [H|[H|[]]]; discriminate H.
+Qed.
+
+(* the decision before the first repair loses the barrier Del@2: Set@1 of the deeper level comes back *)
 Lemma compact_key_old_history_deeper_fails : compact_key_old_history_deeper_fails_stmt.
 Proof.
   exists 0, [], [w_set 3; w_del 2], [w_set 1], 3.
   split; [exact w_lies_below|]. split; [constructor|]. split; [right; cbn; lia|].
   split; vm_compute; discriminate.
+Qed.
+
+(* the decision between the two repairs loses it under finite retention *)
+Lemma compact_key_mid_history_deeper_hard_fails : compact_key_mid_history_deeper_hard_fails_stmt.
+Proof.
+  exists 10, 100, [], [w_set 3; w_del 2], [w_set 1], 3, (w_del 2), (w_set 1).
+  split; [exact w_lies_below|]. split; [constructor|]. split; [cbn; lia|].
+  split; [reflexivity|]. split; [reflexivity|].
+  split.
+  - vm_compute. right. left. reflexivity.
+  - vm_compute. intros [H|[]]. discriminate H.
 Qed.
 
 Print Assumptions compact_key_sublist.
@@ -1098,3 +1288,6 @@ Print Assumptions compact_key_history_deeper.
 Print Assumptions compact_key_history_deeper_retention.
 Print Assumptions compact_key_retention_barrier_lost.
 Print Assumptions compact_key_old_history_deeper_fails.
+Print Assumptions compact_key_history_deeper_hard.
+Print Assumptions compact_key_retention_replace_lost.
+Print Assumptions compact_key_mid_history_deeper_hard_fails.
